@@ -151,3 +151,36 @@ pub fn record(args: &[String]) {
     let n = out.finish();
     println!("{}", json!({"summary": true, "events": n, "mh_rejections_wild": n_bad_cand, "nuts_rows": nuts_rows, "panics": panics}));
 }
+
+/// NUTS with the start-up heuristic on a target whose log-density AND gradient are NaN outside the support, started
+/// within one unit-momentum step of the boundary (the first trial step of the heuristic often leaves the support).
+/// Run by the driver under a short watchdog: a sampler that hangs there is a violation.
+pub fn probe(args: &[String]) {
+    use burn::backend::{Autodiff, NdArray};
+    type B64 = Autodiff<NdArray<f64>>;
+    let seed = arg_u64(args, "--seed", 1);
+    let mut out = NdjsonOut::create(arg(args, "--out").unwrap());
+    let mut s = seed;
+    let mut panics = vec![];
+    let mut rows = 0u64;
+    for k in 0..12u64 {
+        let start = vec![0.15 + 0.05 * (k % 4) as f64, 0.3];
+        let sd = splitmix(&mut s);
+        let (raw, panic) = crate::nutsrec::run_chain::<B64, f64, _>(crate::nutsrec::SqrtLineN, start, 0.8, sd, &[(6, 3)], None);
+        out.push(&json!({"e": "new", "label": format!("NUTS sqrtline/f64 start-up #{k}")}));
+        if let Some(p) = panic {
+            panics.push(format!("NUTS sqrtline #{k}: {p}"));
+        }
+        let pr = project(&raw, &crate::nutsrec::OwnN::SqrtLine, 1e-7);
+        for e in &pr.bad {
+            let mut e = e.clone();
+            e["uzero"] = json!(false);
+            e["unchanged"] = json!(!e["moved"].as_bool().unwrap());
+            out.push(&e);
+            rows += 1;
+        }
+        println!("{}", json!({"progress": k}));
+    }
+    let n = out.finish();
+    println!("{}", json!({"summary": true, "events": n, "nuts_rows": rows, "panics": panics}));
+}
